@@ -809,7 +809,11 @@ def simp_cc_conds(_, expr):
               expr,
               "FLAG_EQ_AND"
           )):
-        expr = ExprOp("&", *expr.args[0].args)
+        expr = ExprCond(
+            ExprOp("&", *expr.args[0].args),
+            ExprInt(1, expr.size),
+            ExprInt(0, expr.size)
+        )
 
     elif (expr.is_op("CC_EQ") and
           test_cc_eq_args(
